@@ -1,14 +1,22 @@
 // Group `line_count`: V4 — `line-count="OP N"` (property C09; error clauses for C13; tag range C10).
 use vstd::prelude::*;
 use std::collections::HashMap;
+use std::cmp::Ordering;
 use std::ops::{Range, RangeInclusive};
+use std::path::{Path, PathBuf};
 
 //@include prelude/anyhow.rs
 //@include prelude/tstr_mod.rs
 
 verus! {
 
+//@include prelude/std_range.rs
 //@include prelude/strings.rs
+//@include prelude/domain.rs
+//@include prelude/block_fns.rs
+
+//@item file=src/validators/line_count.rs kind=struct name=LineCountValidator
+//@item file=src/validators/line_count.rs kind=struct name=LineCountViolation
 
 //@item file=src/validators/line_count.rs kind=enum name=Op
 
@@ -71,6 +79,70 @@ impl Op {
 verif_parse_usize($a)
 //@edit rule=E16 find=<<|_|>> count=all optional=1
 |_e|
+//@end
+
+
+/// C09: "the number of its non-blank content lines"; "a block with no content counts zero lines"
+spec fn nonblank_count(content: Seq<char>) -> nat {
+    if content.len() == 0 { 0 } else { count_true(lines_of(content), |l: Seq<char>| !is_blank(l), lines_of(content).len() as int) }
+}
+
+impl Clone for Op {
+    fn clone(&self) -> (r: Self) ensures r == *self { *self }
+}
+impl Copy for Op {}
+
+impl LineCountValidator {
+//@unit id=V4 file=src/validators/line_count.rs fn=<<impl ValidatorSync for LineCountValidator::validate>> slice_from=<<let actual = if>> slice_to_block_end=1
+//@wrapper
+fn v4_check<'a>(
+    block_with_context: &'a BlockWithContext,
+    file_blocks: &'a FileBlocks,
+    file_path: &PathBuf,
+    op: Op,
+    expected: usize,
+    violations: &mut HashMap<PathBuf, Vec<Violation>>,
+) -> (r: anyhow::Result<()>)
+    requires
+        block_wf(block_with_context.block),
+    ensures
+        // the bound holds => silent
+        op_holds(op, nonblank_count(content_of(block_with_context.block, file_blocks.file_content@)) as int, expected as int)
+            ==> r is Ok && final(violations)@ == old(violations)@, // [V4.post.satisfied_is_silent]
+        // the bound is broken => exactly one diagnostic carrying (actual, op, bound), on the start tag
+        !op_holds(op, nonblank_count(content_of(block_with_context.block, file_blocks.file_content@)) as int, expected as int) && r is Ok
+            ==> exists|v: Violation, d: serde_json::Value| // [V4.post.violated_reports_once]
+                   final(violations)@.dom() == old(violations)@.dom().insert(*file_path)
+                && final(violations)@[*file_path]@ == map_get_or_empty(old(violations)@, *file_path).push(v)
+                && v.code@ == "line-count"@
+                && v.range.start == block_with_context.block.start_tag_position_range@.start // [V4.post.range_is_start_tag]
+                && v.range.end == block_with_context.block.start_tag_position_range@.end
+                && v.data == Some(d) && exists|payload: LineCountViolation| #[trigger] serde_json::value_encodes(d, payload) // [V4.post.payload]
+                    && payload.actual == nonblank_count(content_of(block_with_context.block, file_blocks.file_content@))
+                    && payload.op@ == op_token(op) && payload.expected == expected,
+        r is Err ==> final(violations)@ == old(violations)@, // [V4.post.err_leaves_report]
+//@tail
+    Ok(())
+//@chain rule=E3 find=<<.lines() .filter(>> to=verif_lines_filter_count suffix=<<.count()>> extra=<<Ghost(|l: Seq<char>| !is_blank(l))>>
+//@closure rule=E12 find=<<|line|>> params=<<|line: &&str|>> ret=<<keep: bool>>
+    ensures keep == !is_blank(line@)
+//@edit rule=E5 find=<<violations.entry(file_path.clone()).or_insert_with(Vec::new).push(>>
+verif_map_push(violations, file_path.clone(),
+//@end
+}
+
+//@unit id=V4c file=src/validators/line_count.rs fn=create_violation ret=r
+//@contract
+    requires block_wf(*block),
+    ensures
+        r matches Ok(v) ==> v.range.start == block.start_tag_position_range@.start && v.range.end == block.start_tag_position_range@.end // [V4c.post.range_is_start_tag]
+            && v.code@ == "line-count"@ && Ok::<BlockSeverity, anyhow::Error>(v.severity) == severity_spec(*block)
+            && (exists|d: serde_json::Value, payload: LineCountViolation| v.data == Some(d) && #[trigger] serde_json::value_encodes(d, payload) // [V4c.post.payload]
+                && payload.actual == actual && payload.op@ == op_token(operation) && payload.expected == expected),
+        severity_spec(*block) is Err ==> r is Err, // [V4c.post.bad_severity_is_err]
+//@macro rule=E1 name=format to=<<verif_message()>>
+//@edit rule=E2 find=<<serde_json::to_value(>>
+verif_to_value(
 //@end
 
 } // verus!
